@@ -156,6 +156,36 @@ def main():
 
     direct, cases = [], []
     stats = {"requests": 0, "constrained": 0, "with_selection": 0, "nested_sequences": 0, "arrays_checked": 0, "values_checked": 0}
+    # names that need DAP quoting: every response kind names a variable by the same (quoted) id
+    try:
+        from pydap.model import BaseType, DatasetType, SequenceType, StructureType
+        qd = DatasetType("quoted")
+        qd["my var"] = BaseType("my var", np.arange(3, dtype="i4"))
+        qs = StructureType("s")
+        qs["a.b"] = BaseType("a.b", np.arange(2, dtype="f8"))
+        qd["s"] = qs
+        qq = SequenceType("q")
+        qq["col 1"] = BaseType("col 1")
+        qq["b"] = BaseType("b")
+        qq.data = np.array([(1, 2.5), (3, 4.5)], dtype=[("col%201", "i4"), ("b", "f8")])
+        qd["q"] = qq
+        qapp = BaseHandler(qd)
+        for ce, ids in (("", ["my%20var", "s.a%2Eb"]), ("my%20var", ["my%20var"]), ("q", []), ("s", ["s.a%2Eb"])):
+            dds_b = Request.blank("/.dds?" + ce).get_response(qapp).body.decode("ascii")
+            asc_b = Request.blank("/.ascii?" + ce).get_response(qapp).body.decode("ascii")
+            dods_b = Request.blank("/.dods?" + ce).get_response(qapp).body
+            r.count(("quoted-names", ce))
+            tail = asc_b[len(dds_b):]
+            lines = tail.split("\n")
+            missing = [i_ for i_ in ids if i_ not in lines]
+            seq_hdr_ok = (ce not in ("", "q")) or ("q.col%201, q.b" in lines)
+            dds_ok = all(i_.split(".")[-1] in dds_b for i_ in ids) and (ce not in ("", "q") or "col%201" in dds_b)
+            if missing or not seq_hdr_ok or not dds_ok or not dods_b.startswith(dds_b.encode()):
+                direct.append({"law": "the ASCII response names every variable by the id the DDS of the same request declares (names that "
+                                      "need quoting)", "ce": ce, "ids_not_found_as_lines": missing, "sequence_header_found": seq_hdr_ok,
+                               "ascii": asc_b[:600]})
+    except Exception as e:  # noqa
+        direct.append({"law": "a dataset whose names need quoting is answered in every response kind", "error": repr(e)[:300]})
     n = 150 if T == "quick" else 2500
     for i in range(n):
         desc = G.gen_dataset(rng)
